@@ -17,3 +17,11 @@ package optimizer
 //@   loop 0 modifies obj(value)
 //@   loop 0 invariant[bounds] rangeindex >= -1 && rangeindex < len(value)
 //@   loop 0 invariant[content] forall(k, 0, rangeindex+1, value[k] == min.Value + k)
+
+// a call of a ConstExpr function on literal arguments is evaluated at compile time with the values the compiled
+// program would push for those literals (C02)
+//@ func optimizer.constExpr.Exit
+//@   property C02
+//@   mode panics
+//@   assigns *
+//@   loop 0 modifies obj(in) fresh
